@@ -2,12 +2,25 @@
    Only ExtrOcamlBasic is used (bool, option, unit, list, prod, sumbool, sumor mapped to OCaml's own
    types; andb/orb inlined).  No Extract Constant / Extract Inductive directive of our own:
    nat, positive, N, Z, ascii stay the extracted inductives. *)
-Require Import Strum.Model.Bytes Strum.Model.Defs Strum.Model.Heck Strum.Model.Meta Strum.Model.Repr.
+Require Import Strum.Model.Bytes Strum.Model.Defs Strum.Model.Heck Strum.Model.Meta Strum.Model.Names
+               Strum.Model.FromStr Strum.Model.Display Strum.Model.Iter Strum.Model.Table Strum.Model.Misc
+               Strum.Model.Repr Strum.Model.Reject Strum.Spec.FromStrSpec.
 From Coq Require Extraction ExtrOcamlBasic.
 Extraction Language OCaml.
 Extraction "../extract/model.ml"
-  Z.add Z.mul Z.sub Z.div_eucl Z.opp Z.leb Z.ltb Z.eqb Z.of_nat Z.to_nat N.of_nat N.to_nat
-  str_eqb
-  convert_case style_of_string snakify
-  vprops_of tprops_of
+  Z.add Z.mul Z.sub Z.div_eucl Z.opp Z.leb Z.ltb Z.eqb Z.of_nat Z.to_nat N.of_nat N.to_nat Z.pow
+  str_eqb eq_ic_str lower_str upper_str char_count
+  convert_case style_of_string snakify heck_words
+  vprops_of tprops_of preferred_name serializations
+  gen_from_str run_from_str run_try_from path_ok ident_ok
+  gen_display run_display fmt_pad capture capture_idents gen_as_ref run_as_ref gen_into_static gen_to_string run_match
+  gen_variant_names
+  gen_iter iter_get iter_count it_step it_step_legacy run_hist ist0 gen_count gen_variant_array
+  gen_table tb_index tb_set tb_new tb_filled tb_from_closure tb_transform tb_all tb_all_ok
+  gen_is run_is gen_try_as run_try_as
+  gen_message run_message run_detailed run_documentation run_serializations
+  gen_props run_get_str run_get_int run_get_bool
+  gen_discriminants run_discr_from
+  vspell vci matches_b eligible_b non_overlap_b all_vprops
+  outcome rule_applies all_rules all_derives
   gen_from_repr gen_from_repr_legacy run_from_repr rustc_discr repr_range discr_ty.
